@@ -153,7 +153,33 @@ def run_pairs(rng, n):
         pam[msk] = 2 / 3 * (paf[msk] ** 3 - pat[msk] ** 3) / (paf[msk] ** 2 - pat[msk] ** 2)
         add("get_pressures (expression of get_branch_results_gas)", ["p_abs_from", "p_abs_to", "p_abs_mean"],
             (paf, pat, pam), p_nb)
+        # gas result post-processing, whole twin (numpy function vs numba wrapper) with a real fluid object; node
+        # temperatures differ from node to node; direction-switched rows are the known finding (counted, not reported)
+        for fluid in _gas_nets():
+            brs = br.copy()
+            brs[:, B.FROM_NODE_T_SWITCHED] = (m < -2e-11)
+            brs[np.isnan(m), B.FROM_NODE_T_SWITCHED] = 0
+            swr = brs[:, B.FROM_NODE_T_SWITCHED] > 0
+            g_np = X.get_branch_results_gas(fluid, brs, node, fn, tn, v_mps, pf, pt)
+            g_nb = X.get_branch_results_gas_numba(fluid, brs, node, fn, tn, v_mps, pf, pt)
+            gn = ["v_gas_from", "v_gas_to", "v_gas_mean", "p_abs_from", "p_abs_to", "p_abs_mean", "normfactor_from",
+                  "normfactor_to", "normfactor_mean"]
+            sw_exc = (swr, "direction-switched branch: known finding C07-gas-normfactor-switched-branch")
+            gexc = {k: sw_exc for k in ("v_gas_from", "v_gas_mean", "normfactor_from", "normfactor_mean")}
+            add("get_branch_results_gas[%s]" % fluid.fluid.name, gn, g_np, g_nb, exc=gexc)
     return res, kinds, {"branch_pit": br, "node_pit": node, "vec": v}
+
+
+_GAS = []
+
+
+def _gas_nets():
+    """two empty nets carrying a library gas (the gas functions only call get_fluid(net))"""
+    if not _GAS:
+        import pandapipes as pp
+        for f in ("lgas", "hydrogen"):
+            _GAS.append(pp.create_empty_network(fluid=f))
+    return _GAS
 
 
 # cancellation in p_i^3 - p_{i+1}^3 / p_i^2 - p_{i+1}^2 amplifies the 1-ulp difference between pow() and
@@ -162,7 +188,10 @@ ABS_SCALE = {("derivatives_thermal", "fb"): 400., ("derivatives_hydraulic_incomp
              ("derivatives_hydraulic_comp", "load_vec"): 20.}     # magnitude of the operands of the final subtraction
 ILL = {("calc_medium_pressure_with_derivative", "p_m"), ("calc_medium_pressure_with_derivative", "der_p_m"),
        ("calc_medium_pressure_with_derivative", "der_p_m1"),
-       ("get_pressures (expression of get_branch_results_gas)", "p_abs_mean")}
+       ("get_pressures (expression of get_branch_results_gas)", "p_abs_mean"),
+       ("get_branch_results_gas[lgas]", "p_abs_mean"), ("get_branch_results_gas[hydrogen]", "p_abs_mean"),
+       ("get_branch_results_gas[lgas]", "normfactor_mean"), ("get_branch_results_gas[hydrogen]", "normfactor_mean"),
+       ("get_branch_results_gas[lgas]", "v_gas_mean"), ("get_branch_results_gas[hydrogen]", "v_gas_mean")}
 
 
 def compare(res, kinds, max_ulps=4.0, ill_rtol=1e-9):
